@@ -199,7 +199,9 @@ class ExcelCompiler:
         def cell_value(a_cell):
             if a_cell.formula and a_cell.formula.python_code:
                 return '=' + a_cell.formula.python_code
-            elif isinstance(a_cell.value, np.float64):
+            elif isinstance(a_cell.value, float):
+                # a numpy float, or the float of a loaded yaml file which
+                # ruamel would write back with the digits it was read with
                 return float(a_cell.value)
             else:
                 return a_cell.value
